@@ -872,6 +872,9 @@ func (env *Env) ghostLocs(id *Term) []Loc {
 	var out []Loc
 	for _, name := range env.c.eng.ghostOrder {
 		gf := env.c.eng.ghostFields[name]
+		if counterGhosts[ghostMapName(gf.Name)] {
+			continue // x.* does not cover counter ghosts: those change only when listed by name
+		}
 		out = append(out, Loc{ghostMapName(gf.Name), id, SArr(SInt, ghostSort(gf.Type))})
 	}
 	return out
